@@ -380,6 +380,15 @@ func streamDefect(thorough bool) {
 					emitD("repeated", i, j, "", val, v.render(ins(j, pair{p.a, val})))
 				}
 				if v.name == "20" || v.name == "40" {
+					// move element i to position j (misplaced metric)
+					for j := 0; j < len(w); j++ {
+						if j == i || (!thorough && j != 0 && j != len(w)-1 && j != i+2 && j+2 != i) {
+							continue
+						}
+						c := append(append([]pair{}, w[:i]...), w[i+1:]...)
+						c = append(c[:j], append([]pair{p}, c[j:]...)...)
+						emitD("move", i, j, "", "", v.render(c))
+					}
 					if i+1 < len(w) {
 						c := append([]pair{}, w...)
 						c[i], c[i+1] = c[i+1], c[i]
